@@ -436,3 +436,28 @@ def mismatch_replay(kind, inp, impl, model, extra=None):
 def scratch_dir(prefix="gwfverif-"):
     base = os.environ.get("GWF_VERIF_SCRATCH") or tempfile.gettempdir()
     return tempfile.mkdtemp(prefix=prefix, dir=base)
+
+
+# ---------------------------------------------------------------- parallel helpers
+
+def pmap(func, items, procs=None, chunk=None):
+    """map `func` over items in forked worker processes (func must be a module-level function)"""
+    import concurrent.futures as cf
+    procs = procs or min(16, os.cpu_count() or 4)
+    items = list(items)
+    if len(items) < 64 or procs <= 1:
+        return [func(x) for x in items]
+    chunk = chunk or max(1, len(items) // (procs * 4))
+    with cf.ProcessPoolExecutor(procs) as ex:
+        return list(ex.map(func, items, chunksize=chunk))
+
+
+def load_corpus(prop):
+    d = os.path.join(VERIF, "corpus", prop)
+    out = []
+    if os.path.isdir(d):
+        for fn in sorted(os.listdir(d)):
+            if fn.endswith(".json"):
+                with open(os.path.join(d, fn)) as f:
+                    out.append((fn, json.load(f)))
+    return out
